@@ -191,7 +191,7 @@ def roundtrip(fmt, model, cycles=2):
         out.append(Fail('writer-mutates-model', cm._safe_str(bd.observe(fm0))))
     try:
         data = open(p0, 'rb').read()
-        on_disk = data if fmt.binary else data.decode('utf8')
+        on_disk = data if isinstance(t0, bytes) else data.decode('utf8')
         if on_disk != t0:
             out.append(Fail('return!=file', None))
     except Exception as exc:  # noqa: BLE001
